@@ -34,10 +34,10 @@ OTHER = ["logical_not", "bitwise_invert", "is_finite", "select", "complex", "rea
          "list", "item"]
 KNOWN = set(F_UNARY + F_BINARY + COMPARE + B_BINARY + I_BINARY + OTHER)
 
-FLOAT_VALUES = [0.0, 1.0, 2.0, 0.5, -1.0, 0.1, 3.141592653589793, 1e10, 1e-10, 1.5, -2.5, 0.3333333333333333, 7.0, 1e30,
+FLOAT_VALUES = [0.0, -0.0, 1.0, 2.0, 0.5, -1.0, 0.1, 3.141592653589793, 1e10, 1e-10, 1.5, -2.5, 0.3333333333333333, 7.0, 1e30,
                 float("inf"), float("-inf"), 100.0, 0.7071067811865476]
 INT_VALUES = [0, 1, 2, -1, 7, 3]
-COMPLEX_PARTS = [0.0, 1.0, 2.0, 3.0, -2.0, 0.5, -0.5, 0.1, -1.0, 1e10]
+COMPLEX_PARTS = [0.0, -0.0, 1.0, 2.0, 3.0, -2.0, 0.5, -0.5, 0.1, -1.0, 1e10]
 
 
 def fhex(x):
@@ -156,7 +156,7 @@ class Gen:
 
     def new_complex_const(self, like):
         """complex-valued constant (Python complex or numpy complex scalar) like an existing complex node.
-        Parts are finite and free of -0.0 (inf/nan parts and the sign of zero are known findings)."""
+        Parts are finite (inf/nan parts are a known finding); -0.0 parts are included since /repo a45d4e7."""
         ct = self.types[like]
         re, im = self.rng.choice(COMPLEX_PARTS), self.rng.choice(COMPLEX_PARTS)
         if self.target == "python" or self.rng.random() < 0.5:
@@ -439,19 +439,6 @@ def known_finding_recipes():
     R.append(dict(target="numpy", name="kf_np_auto_name_join", args=[["x", "float64"], ["y_z", "float64"], ["x_y", "float64"], ["z", "float64"]],
                   nodes=[arg(0), arg(1), arg(2), arg(3), op("add", 0, 1), op("add", 2, 3), op("multiply", 4, 4),
                          op("multiply", 5, 5), op("subtract", 6, 7)], root=8, refs={}, stream="kf"))
-    # the sign of zero is lost by toidentifier: 0.0 / -0.0 and 1+0j / 1-0j share a variable (distinct expressions since ab6dc38)
-    R.append(dict(target="python", name="kf_py_zero_sign_alias", args=[["x", "float"]],
-                  nodes=[arg(0), ["const", ["float", fhex(0.0)], 0], ["const", ["float", fhex(-0.0)], 0], op("copysign", 0, 1),
-                         op("copysign", 0, 2), op("add", 3, 4), op("multiply", 1, 2), op("add", 5, 6)], root=7, refs={}, stream="kf"))
-    R.append(dict(target="numpy", name="kf_np_complex_conj_zero_alias", args=[["z", "complex128"]],
-                  nodes=[arg(0), ["const", ["complex", fhex(1.0), fhex(0.0)], 0], ["const", ["complex", fhex(1.0), fhex(-0.0)], 0],
-                         op("multiply", 0, 1), op("multiply", 0, 2), op("subtract", 3, 4), op("multiply", 1, 2), op("add", 5, 6)],
-                  root=7, refs={}, stream="kf"))
-    # numpy scalar constants: hex of the bytes without zero padding (float32 0x3f011000 / 0x3f110000 -> f0x3f1100)
-    R.append(dict(target="numpy", name="kf_np_hex_bytes_alias", args=[["x", "float32"]],
-                  nodes=[arg(0), ["const", ["np", "float32", fhex(0.5041503906250)], 0], ["const", ["np", "float32", fhex(0.56640625)], 0],
-                         op("multiply", 0, 1), op("multiply", 0, 2), op("add", 3, 4), op("multiply", 1, 2), op("add", 5, 6)],
-                  root=7, refs={}, stream="kf"))
     # complex constants with an infinite part print as `(1+infj)`
     R.append(dict(target="numpy", name="kf_np_complex_inf_part", args=[["z", "complex128"]],
                   nodes=[arg(0), ["const", ["complex", fhex(1.0), "inf"], 0], op("add", 0, 1)], root=2, refs={}, stream="kf"))
